@@ -42,7 +42,10 @@ def fix_positions(
         offset_by_spec: Dict[AugmentationSpec, int] = Counter()
         cols_with_spec.sort()
         for col, spec in cols_with_spec:
-            offset = len(spec.token) - len(spec.replacement)
+            # columns are UTF-8 byte offsets, like the ones the ast records
+            offset = len(spec.token.encode("utf-8")) - len(
+                spec.replacement.encode("utf-8")
+            )
             for prev_applied in spec_order:
                 # the offsets will only be messed up for specs that
                 # were applied earlier
@@ -56,54 +59,93 @@ def fix_positions(
     return fixed_pos_by_spec
 
 
+# token types whose text is never code: copied as it stands in the source, never part of a match
+_OPAQUE_TOKEN_TYPES = {tokenize.STRING, tokenize.COMMENT} | {
+    getattr(tokenize, name)
+    for name in ("FSTRING_MIDDLE",)  # Python >= 3.12: the literal text of an f-string
+    if hasattr(tokenize, name)
+}
+
+
+def _source_rows(tokens: List[tokenize.TokenInfo]) -> Dict[int, str]:
+    """the physical lines of the source, by (1-based) row, as far as the tokens carry them"""
+    rows: Dict[int, str] = {}
+    for tok in tokens:
+        for i, text in enumerate(tok.line.splitlines(keepends=True)):
+            rows.setdefault(tok.start[0] + i, text)
+    return rows
+
+
+def _source_between(
+    rows: Dict[int, str], start: Tuple[int, int], end: Tuple[int, int]
+) -> str:
+    """the source text from position `start` up to position `end` (row, column in characters)"""
+    if start >= end:
+        return ""
+    if start[0] == end[0]:
+        return rows.get(start[0], "")[start[1] : end[1]]
+    pieces = [rows.get(start[0], "")[start[1] :]]
+    for row in range(start[0] + 1, end[0]):
+        pieces.append(rows.get(row, ""))
+    pieces.append(rows.get(end[0], "")[: end[1]])
+    return "".join(pieces)
+
+
 def replace_tokens_and_get_augmented_positions(
     tokenizable: Union[str, List[tokenize.TokenInfo]], spec: AugmentationSpec
 ) -> Tuple[str, List[Tuple[int, int]]]:
+    """Replaces every occurrence of `spec.token` in code (adjacent tokens that spell it) by `spec.replacement`.
+    Everything else - the text between tokens (blanks, tabs, form feeds, backslash continuations) and the text of
+    strings, f-string literal parts and comments - is copied from the source as it stands, so lines keep their
+    numbers and a source without occurrences comes back unchanged.  Returns the new text and, for each
+    occurrence, its (row, column) in the NEW text."""
     if isinstance(tokenizable, str):
-        tokens = list(make_tokens_by_line([tokenizable]))[0]
+        tokens = list(
+            itertools.chain(*make_tokens_by_line(tokenizable.splitlines(keepends=True)))
+        )
     else:
         tokens = tokenizable
+    rows = _source_rows(tokens)
     transformed = StringIO()
-    match = StringIO()
-    cur_match_start = (-1, -1)
+    match = ""  # adjacent code tokens that spell a proper prefix of the token so far
+    match_start = (-1, -1)
+    positions: List[Tuple[int, int]] = []
+    # accumulated change of length of the row `offset_row` of the new text through replacements made so far
+    offset_row, col_offset = -1, 0
+    prev_end = (1, 0)
 
-    def _flush_match(force: bool = False) -> None:
-        if force or not spec.token.startswith(match.getvalue()):
-            transformed.write(match.getvalue())
-            match.seek(0)
-            match.truncate()
-
-    def _write_match(tok: tokenize.TokenInfo) -> None:
-        nonlocal cur_match_start
-        if match.getvalue() == "":
-            cur_match_start = tok.start
-        match.write(tok.string)
-
-    idx = 0
-    col_offset = 0
-    positions = []
-    prev = None
-    while idx < len(tokens):
-        cur = tokens[idx]
-        if prev is not None and prev.end[0] == cur.start[0]:
-            match.write(" " * (cur.start[1] - prev.end[1]))
-            _flush_match()
+    for cur in tokens:
+        gap = _source_between(rows, prev_end, cur.start)
+        text = cur.string
+        if cur.type in _OPAQUE_TOKEN_TYPES:
+            # verbatim: the tokenizer reports the literal part of an f-string with `{{` unescaped
+            text = _source_between(rows, cur.start, cur.end)
+            candidate = None
+        elif match != "" and spec.token.startswith(match + gap + text):
+            candidate = match + gap + text
         else:
-            col_offset = 0
-            _flush_match(force=True)
-            match.write(" " * cur.start[1])
-        _write_match(cur)
-        _flush_match()
-        if spec.token == match.getvalue():
-            positions.append((cur_match_start[0], cur_match_start[1] + col_offset))
+            candidate = None
+        if candidate is None:
+            # what was collected so far is no occurrence: it is ordinary text
+            transformed.write(match)
+            match = ""
+            transformed.write(gap)
+            if cur.type not in _OPAQUE_TOKEN_TYPES and spec.token.startswith(text) and text != "":
+                candidate, match_start = text, cur.start
+        if candidate is None:
+            transformed.write(text)
+        elif candidate == spec.token:
+            if match_start[0] != offset_row:
+                offset_row, col_offset = match_start[0], 0
+            positions.append((match_start[0], match_start[1] + col_offset))
             col_offset += len(spec.replacement) - len(spec.token)
             transformed.write(spec.replacement)
-            match.seek(0)
-            match.truncate()
-        prev = cur
-        idx += 1
+            match = ""
+        else:
+            match = candidate
+        prev_end = cur.end
 
-    _flush_match(force=True)
+    transformed.write(match)
     return transformed.getvalue(), positions
 
 
@@ -163,8 +205,12 @@ def make_syntax_augmenter(
         transformed, positions = replace_tokens_and_get_augmented_positions(
             tokens, aug_spec
         )
-        for pos in positions:
-            rewriter.register_augmented_position(aug_spec, *pos)
+        new_lines = transformed.splitlines(keepends=True)
+        for lineno, col in positions:
+            # the ast counts columns in UTF-8 bytes, the tokenizer in characters
+            if 0 < lineno <= len(new_lines):
+                col = len(new_lines[lineno - 1][:col].encode("utf-8"))
+            rewriter.register_augmented_position(aug_spec, lineno, col)
         if isinstance(lines, list):
             return transformed.splitlines(keepends=True)
         else:
